@@ -255,6 +255,16 @@ func cmdCheck(args []string) int {
 		}
 		vcs = f
 	}
+	engineErr := false
+	// obligation names are identities (replay files, known findings, SMT file names): they must be unique
+	seenName := map[string]bool{}
+	for _, vc := range vcs {
+		if seenName[vc.Name] {
+			fmt.Printf("ENGINE-ERROR: duplicate obligation name %s\n", vc.Name)
+			engineErr = true
+		}
+		seenName[vc.Name] = true
+	}
 	dischargeAll(vcs, work, to, 14)
 
 	// known findings
@@ -279,7 +289,6 @@ func cmdCheck(args []string) int {
 	violations := 0
 	knownCount := 0
 	discharged := 0
-	engineErr := false
 	perBackend := map[string]int{}
 	var solverMs int64
 	type sample struct {
